@@ -282,7 +282,7 @@ def s_sign():
         "pre": weighted((1, st.just([])), (1, pre)),
         "withhold": withhold,
         "no_script": no_script,
-        "forms": weighted((1, st.just(0)), (1, st.integers(0, 127))),
+        "forms": weighted((1, st.just(0)), (1, st.integers(0, 255))),
         # a wallet's worth of unrelated keys handed over with the needed ones (the needed ones first / last)
         "crowd": weighted((40, st.just(0)), (2, st.sampled_from([40, -40, 300, -300])), (3, st.sampled_from([1100, 1100, -1100, 2100, 4200]))),
     })
